@@ -94,9 +94,10 @@ Theorem C03_map_to_level_levels s ks :
   map_to_level_set false ks s = (Ok (list_to_set ks), s).
 Proof. exact (map_to_level_set_levels s ks). Qed.
 
-(** The result does not depend on the quantified levels. *)
+(** The result does not depend on the quantified levels (whenever the call
+    returns: for every value of [max_nodes]). *)
 Theorem C03_quantify_independent s u byname qvars fa q x s' a a' :
-  Inv s → valid s u → last_len s = None → max_nodes s = None →
+  Inv s → valid s u → last_len s = None →
   fst (map_to_level_set byname qvars s) = Ok q →
   quantify u byname qvars fa s = (Ok x, s') →
   agree_off q a a' → D s' x a = D s' x a'.
@@ -105,7 +106,7 @@ Proof. exact (quantify_indep s u byname qvars fa q x s' a a'). Qed.
 (** Quantifying over levels on which [u] does not depend returns the very
     same reference; in particular for the empty set of variables. *)
 Theorem C03_quantify_noop s u byname qvars fa q x s' :
-  Inv s → valid s u → last_len s = None → max_nodes s = None →
+  Inv s → valid s u → last_len s = None →
   fst (map_to_level_set byname qvars s) = Ok q →
   quantify u byname qvars fa s = (Ok x, s') →
   (∀ a b, agree_off q a b → D s u a = D s u b) →
@@ -113,7 +114,7 @@ Theorem C03_quantify_noop s u byname qvars fa q x s' :
 Proof. exact (quantify_noop s u byname qvars fa q x s'). Qed.
 
 Theorem C03_quantify_noop_empty s u byname qvars fa x s' :
-  Inv s → valid s u → last_len s = None → max_nodes s = None →
+  Inv s → valid s u → last_len s = None →
   fst (map_to_level_set byname qvars s) = Ok ∅ →
   quantify u byname qvars fa s = (Ok x, s') →
   x = u.
